@@ -278,7 +278,7 @@ def step (s : St) (line : List String) : St × String :=
       match kv toks "tx" with
       | some _ =>
         match txFd s toks "tx" with
-        | some fd => render ((s.modSock fd fun v => { v with wl := sizes }).emit "ok") true
+        | some fd => render (({ s with pendingWl := [] }.modSock fd fun v => { v with wl := sizes }).emit "ok") true
         | none => render ({ s with pendingWl := sizes }.emit "ok") true
       | none => render ({ s with pendingWl := sizes }.emit "ok") true
     else if op == "eof" || op == "reset" then
